@@ -28,6 +28,9 @@ for bid in ids:
         meta["check"] = {"command": "VERIF_REPO=<scratch copy with patch> ./check %s --tier quick" % prop, "exit": r.returncode, "status": status,
                          "clauses_not_ok": bad, "when": time.strftime("%Y-%m-%d %H:%M")}
         json.dump(meta, open(mp, "w"), indent=1)
+        lo = "%s/benign/%s/last_output.txt" % (ROOT, bid)
+        if r.returncode == 0 and os.path.exists(lo):
+            os.remove(lo)  # output of an earlier, not-held run
         if r.returncode != 0:
             open("%s/benign/%s/last_output.txt" % (ROOT, bid), "w").write("\n".join(l[:400] for l in out.splitlines() if re.match(r"^\[%s\] (VIOLATION|UNDECIDED|ERROR)|^VIOLATION|^ERROR|^UNDECIDED" % prop, l))[:20000])
     finally:
